@@ -418,6 +418,46 @@ func c18Classification(r *core.Report) {
 			if c, ok := core.Unparen(fc.Expr).(*ast.CallExpr); ok && fc.Truth && fc.Tag == nil && core.CalleeName(fn.Pkg.TypesInfo, c) == "main.(ErrorSlice).All" && len(c.Args) == 1 && isNotFoundPred(c.Args[0], fn) {
 				return true
 			}
+			// the test made by a boolean helper of the package: every return of the helper that can be true has
+			// errs.All(not-found) among its conjuncts (allEpochsSearchedWithoutHit(err))
+			if c, ok := core.Unparen(fc.Expr).(*ast.CallExpr); ok && fc.Truth && fc.Tag == nil {
+				if fo := core.Callee(fn.Pkg.TypesInfo, c); fo != nil {
+					if h := p.ByObj[fo.Origin()]; h != nil && h.Body != nil && h.Pkg == fn.Pkg && h != fn {
+						hi := h.Pkg.TypesInfo
+						hg := p.Graph(h)
+						all, cnt := true, 0
+						for _, rn := range hg.Returns() {
+							res := returnResults(rn)
+							if len(res) != 1 {
+								all = false
+								continue
+							}
+							if b, isC := boolConst(hi, res[0]); isC && !b {
+								continue
+							}
+							cnt++
+							has := false
+							for _, cj := range conjuncts(res[0]) {
+								if cc, isCall := core.Unparen(cj).(*ast.CallExpr); isCall && core.CalleeName(hi, cc) == "main.(ErrorSlice).All" && len(cc.Args) == 1 && isNotFoundPred(cc.Args[0], h) {
+									has = true
+								}
+							}
+							// or the return is reached under the All fact inside the helper
+							for _, hf := range hg.FactsAt(rn) {
+								if cc, isCall := core.Unparen(hf.Expr).(*ast.CallExpr); isCall && hf.Truth && hf.Tag == nil && core.CalleeName(hi, cc) == "main.(ErrorSlice).All" && len(cc.Args) == 1 && isNotFoundPred(cc.Args[0], h) {
+									has = true
+								}
+							}
+							if !has {
+								all = false
+							}
+						}
+						if all && cnt > 0 {
+							return true
+						}
+					}
+				}
+			}
 		}
 		return false
 	}
